@@ -19,6 +19,7 @@ pub mod c09;
 pub mod c10;
 pub mod lsp;
 pub mod c12;
+pub mod c13;
 pub mod c14;
 pub mod c15;
 pub mod c16;
